@@ -12,6 +12,25 @@ from ..structure import calls_in, call_name
 from .common import shipped_analyses
 
 
+def check_namespace(prop, res, repo, cas) -> int:
+    """R-NS: every helper series of an indicator is named '<the instance's own name>_<literal>' (at any depth): two instances of one
+    class, or an instance and another indicator, never share a helper series"""
+    n_names = 0
+    for ca in cas:
+        init = repo.find_method(ca.ci, "_initialise")
+        for name, depth, path in name_closure(repo, ca.ci):
+            if depth == 0:
+                continue
+            n_names += 1
+            if name.startswith(SELF + "_") and "<" not in name[len(SELF):]:
+                res.ok("R-NS", {"class": ca.ci.name, "helper": name, "path": path, "depth": depth}, nontrivial=f"{ca.ci.name}:{name}")
+            else:
+                res.fail("R-NS", finding(prop, "R-NS", init or ca.ci, (init.node if init else ca.ci.node), f"helper series {name!r} ({path}) is not named '<owner name>_<literal>': it is shared with / shadowed by other indicators' series", construct=f"{ca.ci.name} helper name {name}"))
+        for node, why in ca.tree.problems:
+            res.fail("R-NS", finding(prop, "R-NS", init or ca.ci, node, f"composition statement not understood: {why}"))
+    return n_names
+
+
 @register("C13")
 def run(repo, tier) -> Result:
     res = Result("C13", tier)
@@ -25,19 +44,7 @@ def run(repo, tier) -> Result:
     )
     res.assumptions = ["top-level names are distinct and no top-level name equals '<other name>_<helper suffix>' (otherwise known finding R-LOOKUP applies)"]
     cas = shipped_analyses(repo, res)
-    n_names = 0
-    for ca in cas:
-        init = repo.find_method(ca.ci, "_initialise")
-        for name, depth, path in name_closure(repo, ca.ci):
-            if depth == 0:
-                continue
-            n_names += 1
-            if name.startswith(SELF + "_") and "<" not in name[len(SELF):]:
-                res.ok("R-NS", {"class": ca.ci.name, "helper": name, "path": path, "depth": depth}, nontrivial=f"{ca.ci.name}:{name}")
-            else:
-                res.fail("R-NS", finding("C13", "R-NS", init or ca.ci, (init.node if init else ca.ci.node), f"helper series {name!r} ({path}) is not named '<owner name>_<literal>': it is shared with / shadowed by other indicators' series", construct=f"{ca.ci.name} helper name {name}"))
-        for node, why in ca.tree.problems:
-            res.fail("R-NS", finding("C13", "R-NS", init or ca.ci, node, f"composition statement not understood: {why}"))
+    n_names = check_namespace("C13", res, repo, cas)
     check_writes("C13", res, repo, cas)
     check_own("C13", res, repo)
     check_manager_purge("C13", res, repo)
